@@ -4,11 +4,13 @@ void engineCodec(const std::vector<std::string> &, const std::vector<std::string
 void engineActor(const std::vector<std::string> &, const std::vector<std::string> &);
 void engineValues(const std::vector<std::string> &, const std::vector<std::string> &);
 void engineNet(const std::vector<std::string> &, const std::vector<std::string> &);
+void engineServer(const std::vector<std::string> &, const std::vector<std::string> &);
 void registerAllEngines()
 {
     registerEngine("cache", engineCache);
     registerEngine("codec", engineCodec);
     registerEngine("values", engineValues);
     registerEngine("net", engineNet);
+    registerEngine("server", engineServer);
     for (const char *n : {"actor", "prober", "hostname", "provider", "browser", "resolver"}) registerEngine(n, engineActor);
 }
